@@ -3,7 +3,7 @@ From Coq Require Import String.
    case = (hub <kind> <n receivers> <n deliverers>)   obs = (<event> ...)
    The model output is the log itself when the hub transition system accepts it,
    (rejected <index>) otherwise; the verdict is computed from the log alone. *)
-From P2PV Require Import Lib.Base Model.Hub Run.RunFrag.
+From P2PV Require Import Lib.Base Model.Hub Run.RunFrag Run.RunQueue.
 Open Scope N_scope.
 
 Definition nat_of_sx (x : sx) : nat := match x with SN n => N.to_nat n | _ => 0%nat end.
@@ -82,6 +82,7 @@ Definition run_hub (case obs : sx) : sx :=
   match case, obs with
   | SL (t :: k :: _), SL evs =>
       if negb (is_sym "hub" t) then bad_case else
+      if is_sym "qseq" k then run_qseq case obs else
       let model := if is_sym "queue" k then obs
                    else match hrun_diag hub0 (hevs_of_sx evs) 0 with None => obs | Some i => SL [sym "rejected"; SN i] end in
       SL [model; p_hub [] evs]
